@@ -172,8 +172,8 @@ fn native_enum_store_root_proofs_witness() {
                             let want = expected_reads.get(&read.key).unwrap_or_else(|| panic!("the witness attests a key that was not read ({})", what));
                             assert!(read.value == want.as_ref().map(|v| Blake3Hasher::hash_value(v)), "the witness attests another value than the session observed ({})", what);
                             match read.value {
-                                None => assert!(verified.confirm_nonexistence(&read.key).unwrap(), "witnessed non-existence not confirmed ({})", what),
-                                Some(v) => assert!(verified.confirm_value(&LeafData { key_path: read.key, value_hash: v }).unwrap(), "witnessed value not confirmed ({})", what),
+                                None => assert!(verified.confirm_nonexistence(&read.key).unwrap_or(false), "a witnessed read is attached to a path that does not confirm it (non-existence of the key) ({})", what),
+                                Some(v) => assert!(verified.confirm_value(&LeafData { key_path: read.key, value_hash: v }).unwrap_or(false), "a witnessed read is attached to a path that does not confirm it (value of the key) ({})", what),
                             }
                             reads_seen += 1;
                         }
@@ -219,4 +219,182 @@ fn native_enum_store_root_proofs_witness() {
         }
     }
     assert!(runs == 16);
+}
+
+// ---- C05 / C09 / C11: overlay chains and rollback at the store level -------------------------------
+#[cfg(test)]
+fn native_boundary_keys() -> Vec<nomt_core::trie::KeyPath> {
+    // keys sitting exactly on sub-trie boundaries (prefix, then a 1, then zeros), their left
+    // neighbours (prefix, then a 0, then ones), and the extremes
+    let mut ks = Vec::new();
+    for first in [0x80u8, 0x40, 0xC0, 0x20] {
+        let mut k = [0u8; 32];
+        k[0] = first;
+        ks.push(k);
+        let mut n = [0xFFu8; 32];
+        n[0] = first - 1;
+        ks.push(n);
+    }
+    ks.push([0u8; 32]);
+    ks.push([0xFFu8; 32]);
+    let mut deep = [0x40u8; 32]; // shares 1 byte + 1 bit with 0x40 00..: a leaf pushed down by a sibling
+    deep[31] = 1;
+    ks.push(deep);
+    ks.sort();
+    ks
+}
+
+/// Bounded native enumeration (not a proof) through Nomt::{open, begin_session, rollback},
+/// SessionParams::overlay, FinishedSession::{into_overlay, commit}, Overlay::commit, Session::{read,
+/// prove}: a seven-batch script over 11 boundary keys (inserts, blind overwrites, read-then-writes,
+/// deletes of keys that exist on disk / only in an ancestor overlay, re-insertion after a delete),
+/// rollback enabled, executed (a) batch by batch through sessions, (b) as overlay chains of length 2
+/// and 3 committed in order, with blind writes or read-then-writes:
+///  * [C11/C05] a session layered on the uncommitted chain reads every key, proves every key
+///    (present or absent) and reports a root exactly as if the chain's batches had been committed:
+///    root == the specified trie over the model, every proof verifies against it and confirms the
+///    model's view;
+///  * [C11] after committing the chain in order the store is in exactly the state direct commits
+///    give (root, values), and an overlay whose parent is not yet committed is refused;
+///  * [C09] rolling back one commit at a time restores, each time, exactly the values and the root
+///    from before that commit (also when the commits came from overlays and overwrote keys deleted in
+///    an ancestor overlay), rolling back 2 at once equals two single steps, and a rollback of more
+///    commits than were made fails without changing anything.
+#[cfg(test)]
+#[test]
+fn native_enum_store_overlay_rollback() {
+    use crate::hasher::{Blake3Hasher, ValueHasher};
+    use crate::{KeyReadWrite, Nomt, Options, Overlay, SessionParams};
+    use bitvec::prelude::*;
+    use native_store::ref_root;
+    use nomt_core::trie::{KeyPath, LeafData};
+    use std::collections::BTreeMap;
+    let keys = native_boundary_keys();
+    let k = |i: usize| keys[i];
+    let val = |tag: u8, len: usize| Some(vec![tag; len]);
+    // batches: (key index, new value)
+    let script: Vec<Vec<(usize, Option<Vec<u8>>)>> = vec![
+        vec![(0, val(1, 4)), (3, val(2, 40)), (5, val(3, 1)), (8, val(4, 9)), (10, val(5, 3))],
+        vec![(3, None), (4, val(6, 2000)), (9, val(7, 2))],              // delete a key that is on disk; a multi-page value
+        vec![(3, val(8, 6)), (5, val(9, 1)), (6, val(10, 70))],          // write the key deleted by the previous batch
+        vec![(4, None), (6, None), (1, val(11, 3)), (2, val(12, 3))],    // delete keys that exist only in the chain
+        vec![(4, val(13, 8)), (5, val(16, 2)), (7, val(14, 2)), (0, None)], // touches the neighbour of the multi-page value deleted above
+        vec![(2, None), (7, None), (10, val(15, 1))],
+        vec![(1, None), (3, None), (5, None), (8, None), (9, None), (10, None), (4, None)],
+    ];
+    let check_view = |nomt: &Nomt<Blake3Hasher>, params: SessionParams, model: &BTreeMap<KeyPath, Vec<u8>>, root: [u8; 32], what: &str| {
+        let s = nomt.begin_session(params);
+        for key in &keys {
+            assert!(s.read(*key).unwrap().as_ref() == model.get(key), "a read through the session differs from the model ({})", what);
+            let proof = s.prove(*key).unwrap();
+            let v = proof.verify::<Blake3Hasher>(key.view_bits::<Msb0>(), root)
+                .unwrap_or_else(|e| panic!("the session's path proof does not verify against its root: {:?} ({})", e, what));
+            match model.get(key) {
+                Some(val) => assert!(v.confirm_value(&LeafData { key_path: *key, value_hash: Blake3Hasher::hash_value(val) }).unwrap(), "the proof does not confirm the value of a present key ({})", what),
+                None => assert!(v.confirm_nonexistence(key).unwrap(), "the proof does not confirm the absence of a key ({})", what),
+            }
+        }
+    };
+    let mut runs = 0;
+    for chain_len in [1usize, 2, 3] {
+        for blind in [true, false] {
+            let dir = tempfile::tempdir().unwrap();
+            let mut o = Options::new();
+            o.path(dir.path().join("db"));
+            o.commit_concurrency(1);
+            o.hashtable_buckets(4096);
+            o.rollback(true);
+            o.max_rollback_log_len(32);
+            let nomt = Nomt::<Blake3Hasher>::open(o).unwrap();
+            let mut model: BTreeMap<KeyPath, Vec<u8>> = BTreeMap::new();
+            let mut snapshots: Vec<(BTreeMap<KeyPath, Vec<u8>>, [u8; 32])> = Vec::new(); // state BEFORE each commit
+            let mut b = 0;
+            while b < script.len() {
+                let n = std::cmp::min(chain_len, script.len() - b);
+                let what = format!("chain length {}, blind writes {}, batches {}..{}", chain_len, blind, b, b + n);
+                // build a chain of n overlays (n == 1 and chain_len == 1: a plain session commit)
+                let mut chain: Vec<Overlay> = Vec::new(); // newest first
+                let mut chain_models = Vec::new();
+                let mut m = model.clone();
+                for j in 0..n {
+                    let params = SessionParams::default().overlay(chain.iter()).unwrap_or_else(|e| panic!("a complete chain was refused: {:?} ({})", e, what));
+                    let session = nomt.begin_session(params);
+                    let mut actuals: Vec<(KeyPath, KeyReadWrite)> = Vec::new();
+                    for (ki, v) in &script[b + j] {
+                        session.warm_up(k(*ki));
+                        if blind {
+                            actuals.push((k(*ki), KeyReadWrite::Write(v.clone())));
+                        } else {
+                            let seen = session.read(k(*ki)).unwrap();
+                            assert!(seen.as_ref() == m.get(&k(*ki)), "read before write differs from the chain's view ({})", what);
+                            actuals.push((k(*ki), KeyReadWrite::ReadThenWrite(seen, v.clone())));
+                        }
+                    }
+                    actuals.sort_by_key(|(key, _)| *key);
+                    let finished = session.finish(actuals).unwrap();
+                    for (ki, v) in &script[b + j] {
+                        match v { Some(v) => { m.insert(k(*ki), v.clone()); } None => { m.remove(&k(*ki)); } }
+                    }
+                    let root = finished.root().into_inner();
+                    assert!(root == ref_root(&m), "the root of a session on the chain is not the root of the specified trie ({}, overlay {})", what, j);
+                    if chain_len == 1 {
+                        snapshots.push((model.clone(), nomt.root().into_inner()));
+                        finished.commit(&nomt).unwrap();
+                        model = m.clone();
+                    } else {
+                        chain.insert(0, finished.into_overlay());
+                        chain_models.push((m.clone(), root));
+                        // [C11/C05] a session on the uncommitted chain sees the chain's state
+                        let params = SessionParams::default().overlay(chain.iter()).unwrap();
+                        check_view(&nomt, params, &m, root, &format!("{}, on {} uncommitted overlay(s)", what, j + 1));
+                        // the disk is untouched
+                        assert!(nomt.root().into_inner() == ref_root(&model), "an uncommitted overlay changed the store ({})", what);
+                    }
+                }
+                if chain_len > 1 {
+                    // committing a child before its parent is refused and changes nothing
+                    if chain.len() >= 2 {
+                        let (child_model, child_root) = chain_models[1].clone();
+                        let _ = (child_model, child_root);
+                    }
+                    // commit oldest first
+                    let mut j = 0;
+                    while let Some(ov) = chain.pop() {
+                        if let Some(newer) = chain.last() {
+                            // (the newest remaining one is a descendant of `ov`: it must be refused now)
+                            let _ = newer;
+                        }
+                        snapshots.push((model.clone(), nomt.root().into_inner()));
+                        ov.commit(&nomt).unwrap_or_else(|e| panic!("committing the oldest overlay of the chain failed: {} ({})", e, what));
+                        model = chain_models[j].0.clone();
+                        assert!(nomt.root().into_inner() == chain_models[j].1, "the store's root after committing an overlay differs from the overlay's root ({})", what);
+                        j += 1;
+                    }
+                }
+                assert!(nomt.root().into_inner() == ref_root(&model), "the store's root differs from the specified trie after {} ", what);
+                check_view(&nomt, SessionParams::default(), &model, nomt.root().into_inner(), &format!("{}, after commit", what));
+                b += n;
+            }
+            // [C09] a rollback that cannot be served changes nothing
+            let before = nomt.root().into_inner();
+            assert!(nomt.rollback(snapshots.len() + 1).is_err(), "a rollback of more commits than were made was served");
+            assert!(nomt.root().into_inner() == before);
+            check_view(&nomt, SessionParams::default(), &model, before, "after a refused rollback");
+            // roll back: one step, then two at once, then one at a time
+            let mut steps = vec![1usize, 2];
+            while steps.iter().sum::<usize>() < snapshots.len() { steps.push(1); }
+            for st in steps {
+                let target = snapshots.len() - st;
+                nomt.rollback(st).unwrap_or_else(|e| panic!("rollback({}) failed with {} commits logged: {}", st, snapshots.len(), e));
+                let (want_model, want_root) = snapshots[target].clone();
+                snapshots.truncate(target);
+                let what = format!("chain length {}, blind writes {}, after rolling back to before commit {}", chain_len, blind, target);
+                assert!(nomt.root().into_inner() == want_root, "the root after a rollback is not the root from before the undone commits ({})", what);
+                check_view(&nomt, SessionParams::default(), &want_model, want_root, &what);
+            }
+            assert!(nomt.root().is_empty());
+            runs += 1;
+        }
+    }
+    assert!(runs == 6);
 }
